@@ -172,6 +172,13 @@ class Oracle(object):
                         "%s: ||M - M_fresh|| relative %.3g" % (where, e))
       if np.array_equal(a, b):
         m.cov["ref_bit_identical"] += 1
+    # what get_mahalanobis_matrix() answers (it may be cached inside the estimator)
+    ga, gb = _safe(est.get_mahalanobis_matrix), _safe(ref.get_mahalanobis_matrix)
+    if ga[0] == "ok" and gb[0] == "ok" and np.isfinite(ga[1]).all() and np.isfinite(gb[1]).all():
+      if np.shape(ga[1]) != np.shape(gb[1]) or rel_err(ga[1], gb[1]) > TOL:
+        raise Violation("history_independence", "cls=%s,attr=get_mahalanobis_matrix" % name,
+                        "%s: get_mahalanobis_matrix() differs from the fresh replay (shape %s vs %s)"
+                        % (where, np.shape(ga[1]), np.shape(gb[1])))
     for attr in ("threshold_", "n_features_in_"):
       va, vb = getattr(est, attr, None), getattr(ref, attr, None)
       if (va is None) != (vb is None):
@@ -254,8 +261,18 @@ class Oracle(object):
       if "fresh_out" in live and live["fresh_out"] != live["before_out"]:
         raise Violation("restart_transparent", "cls=%s,outputs_fresh_process" % h.name,
                         "query outputs differ in a fresh interpreter")
-    elif kind == "set_params" and op.get("nondata") and h is not None and h.defined:
-      pass
+    elif kind == "set_params" and "pre" not in op and h is not None and h.defined and \
+        ev.get("outcome") == "ok" and getattr(self, "snap", {}).get(op["h"]) is not None:
+      # hyper-parameters take effect at the next fit: until then the fitted model
+      # (attributes and answers) is what it was
+      prev = self.snap_before_op
+      cur = self._snapshot(m, h)
+      if prev is not None and set(prev) == set(cur) and prev != cur:
+        a = _first_diff(prev, cur)
+        raise Violation("set_params_changes_model", "cls=%s,attr=%s" % (h.name, a),
+                        "set_params(%s) changed %s of the fitted %s without a refit"
+                        % (sorted(op.get("params", {})), a, h.name))
+      m.cov["set_params_model_unchanged_checked"] += 1
     elif kind in ("set_threshold", "calibrate") and ev.get("outcome") == "ok" \
         and h is not None and h.defined and self.check_reference:
       self.after_threshold(m, op, ev, live, h)
@@ -278,6 +295,7 @@ class Oracle(object):
     if not hasattr(self, "snap"):
       self.snap = {}
     touched = set(x for x in (op.get("h"), op.get("h2")) if x is not None)
+    self.snap_before_op = self.snap.get(op.get("h"))
     if op["op"] == "mutate_handout":
       touched = set(m.handles)          # the mutated matrix belongs to some handle
     if op["op"] == "mutate_store":
